@@ -1,6 +1,7 @@
 package hcopy
 
 import (
+	"os"
 	"encoding/json"
 	"fmt"
 	"sort"
@@ -182,7 +183,7 @@ var allPairs = []string{"same-repo", "same-reg-grant", "same-reg-refuse", "two-r
 func optsFor(g string) []string {
 	o := []string{"default", "recursive", "fast"}
 	switch strings.TrimSuffix(g, "-512") {
-	case "G13":
+	case "G13", "G23":
 		o = append(o, "referrers", "referrers-filter")
 	case "G14", "G21":
 		o = append(o, "digest-tags")
@@ -199,6 +200,10 @@ func featsFor(sc Scen) []string {
 	f := []string{"full"}
 	if sc.Opt == "referrers" || sc.Opt == "referrers-filter" {
 		f = append(f, "noref")
+		if sc.Pair == "two-reg" {
+			// the source has the API, the target keeps the fallback tag: nothing is copied over it
+			f = append(f, "noref-tgt")
+		}
 	}
 	if sc.Opt == "default" && (sc.Graph == "G3" || sc.Graph == "G1") {
 		f = append(f, "nohead")
@@ -327,6 +332,28 @@ func schedScenarios(thorough bool) []schedItem {
 	}
 	out = append(out, schedItem{Scen{Graph: "G13", Pair: "two-reg", Opt: "referrers", Feat: "noref", Pre: "empty"}, 1, false})
 	out = append(out, schedItem{Scen{Graph: "G13", Pair: "reg-dir", Opt: "referrers", Feat: "noref", Pre: "empty"}, 1, false})
+	out = append(out, schedItem{Scen{Graph: "G13", Pair: "two-reg", Opt: "referrers", Feat: "noref-tgt", Pre: "empty"}, 2, false})
+	// sibling referrers of one subject: every registration in the target's fallback tag must survive
+	for _, f := range []string{"noref-tgt", "noref", "full"} {
+		out = append(out, schedItem{Scen{Graph: "G23", Pair: "two-reg", Opt: "referrers", Feat: f, Pre: "empty"}, 1, false})
+		out = append(out, schedItem{Scen{Graph: "G23", Pair: "two-reg", Opt: "referrers", Feat: f, Pre: "empty", Stall: true}, 1, false})
+	}
+	out = append(out, schedItem{Scen{Graph: "G23", Pair: "reg-dir", Opt: "referrers", Feat: "full", Pre: "empty"}, 1, false})
+	// one persistent delay (a goroutine stalled while all its siblings run on) on the graphs with
+	// shared or attached content
+	for _, g := range []string{"G3", "G4", "G5", "G13", "G14", "G15", "G19", "G21"} {
+		opt := "default"
+		switch g {
+		case "G13":
+			opt = "referrers"
+		case "G14", "G21":
+			opt = "digest-tags"
+		}
+		for _, p := range []string{"two-reg", "same-reg-refuse"} {
+			out = append(out, schedItem{Scen{Graph: g, Pair: p, Opt: opt, Feat: "full", Pre: "empty", Stall: true}, 1, false})
+		}
+	}
+	out = append(out, schedItem{Scen{Graph: "G13", Pair: "two-reg", Opt: "referrers", Feat: "noref-tgt", Pre: "empty", Stall: true}, 1, false})
 	out = append(out, schedItem{Scen{Graph: "G15", Pair: "two-reg", Opt: "recursive", Feat: "full", Pre: halfMask("G15")}, 1, false})
 	// bound 2 on the graphs with shared content
 	if !thorough {
@@ -356,6 +383,9 @@ func schedScenarios(thorough bool) []schedItem {
 
 func schedCfg(sc Scen, branchAll bool) qsched.Config {
 	cfg := qsched.Config{Mode: qsched.Delay, Horizon: 6000}
+	if sc.Stall {
+		cfg.Mode = qsched.Demote
+	}
 	if branchAll || strings.HasSuffix(sc.Pair, "-dir") || strings.HasPrefix(sc.Pair, "dir-") {
 		// layouts have no request stream to branch on: branch at every mutex acquisition too
 		cfg.Branch = nil
@@ -390,7 +420,7 @@ func exploreScen(t *testing.T, rec *ev.Rec, check string, sc Scen, bound int, br
 		for _, l := range x.LogSummary() {
 			c.Logf("%s", l)
 		}
-		c.Logf("err=%v", x.Err)
+		c.Logf("err=%s", errText(x))
 		if states != nil {
 			states[x.Net.Snapshot()+"|"+strings.Join(audit.BlobFiles(x.TgtDir), ",")] = struct{}{}
 			*trans += int64(len(x.Net.Log))
@@ -441,10 +471,10 @@ func schedProblems(x *Exec) (string, string) {
 		return "panic", fmt.Sprintf("panic during copy: %v", x.Out.Panic)
 	}
 	if x.Out.Deadlock {
-		return "deadlock", "copy deadlocked: " + x.Out.DeadlockAt
+		return "observed:deadlock", "copy deadlocked: " + x.Out.DeadlockAt
 	}
 	if x.Out.Horizon {
-		return "no-termination", "copy did not finish within the step horizon"
+		return "observed:no-termination", "copy did not finish within the step horizon"
 	}
 	return "", ""
 }
@@ -467,6 +497,9 @@ func runReplay(t *testing.T, rec *ev.Rec, judge func(x *Exec) (string, string)) 
 	k, m := schedProblems(x)
 	if k == "" {
 		k, m = judge(x)
+	}
+	if os.Getenv("VERIF_SCHEDTRACE") != "" {
+		fmt.Println(strings.Join(c.Log(), "\n"))
 	}
 	fmt.Printf("replay %s choices=%v err=%v\n%s\nverdict: %s %s\n", rp.Scen, rp.Choices, x.Err, strings.Join(x.LogSummary(), "\n"), k, m)
 	rec.Eval(1)
